@@ -94,6 +94,7 @@ class M:
 
 class Env:
     def __init__(self, desc):
+        self.desc = desc
         self.sent = {}
         self.keep = []
         for sd in desc.get("sentinels", []):
@@ -125,7 +126,9 @@ class Env:
         if t == "b":
             return bool(v[1])
         if t == "s":
-            return v[1]
+            # in some environments every string is an instance of a str SUBCLASS (same value, same behaviour: the
+            # evaluator must treat it as the string it is)
+            return _StrSub(v[1]) if self.desc.get("strsub") else v[1]
         if t == "n":
             return None
         if t == "l":
@@ -1467,7 +1470,7 @@ def _run_constraints(case):
 
 def _noaddr(x):
     """canonical text without memory addresses: hex addresses in reprs, and the huge ints id() / hash() return"""
-    return re.sub(r"(?<![0-9.])[0-9]{12,}(?![0-9])", "<addr>", re.sub(r"0x[0-9a-fA-F]+", "0x", json.dumps(x)))
+    return re.sub(r"(?<![0-9.])-?[0-9]{12,}(?![0-9])", "<addr>", re.sub(r"0x[0-9a-fA-F]+", "0x", json.dumps(x)))
 
 
 def _shape(x):
@@ -1782,6 +1785,7 @@ def gen_env(rng):
     vars_.append(["d", ["d", [[["s", "a"], ["S", 1]], [["s", "b"], _rand_value(rng, 1, sids)], [["i", 0], _rand_scalar(rng)]][:rng.randint(0, 3)]]])
     vars_.append(["n", ["i", rng.choice([0, 1, 2, 5, -2])]])
     vars_.append(["s", ["s", rng.choice(["abc", "", "{0._priv}", "{a._priv}", "{0.pub}"])]])
+    strsub = rng.random() < 0.25
     if rng.random() < 0.3:
         vars_.append(["g", ["gen"]])
         if rng.random() < 0.5:
@@ -1790,7 +1794,15 @@ def gen_env(rng):
         vars_.append(["len", ["i", 7]])          # a local that shadows a whitelisted builtin
     if rng.random() < 0.1:
         vars_.append(["getattr", ["s", "shadow"]])  # a local with a non-whitelisted builtin's name
-    return {"vars": vars_, "sentinels": sents}, [v[0] for v in vars_]
+    desc = {"vars": vars_, "sentinels": sents}
+    if strsub:
+        desc["strsub"] = True
+    return desc, [v[0] for v in vars_]
+
+
+class _StrSub(str):
+    """an instance of a str subclass (e.g. what many libraries hand out for annotated or marked-up text)"""
+    __slots__ = ()
 
 
 class G:
